@@ -4,6 +4,7 @@
 use std::cell::{Cell, UnsafeCell};
 use std::ops::{Deref, DerefMut};
 #[derive(Debug)] pub struct Poison;
+impl std::fmt::Display for Poison { fn fmt(&self, f: &mut std::fmt::Formatter<'_>) -> std::fmt::Result { write!(f, "poisoned lock") } }
 pub struct Quiet { mode: Cell<u8>, readers: Cell<u64>, writers: Cell<u64> }
 impl Quiet {
     fn new() -> Quiet { Quiet { mode: Cell::new(0), readers: Cell::new(0), writers: Cell::new(0) } }
@@ -32,6 +33,11 @@ impl<T> RwLock<T> {
         while self.st.get() < 0 { vsym::block_on_lock(); }
         self.st.set(self.st.get() + 1); Ok(RwLockReadGuard { l: self })
     }
+    pub fn try_read(&self) -> Result<RwLockReadGuard<'_, T>, Poison> { self.q.on_acquire(false); if self.st.get() < 0 { return Err(Poison); } self.st.set(self.st.get() + 1); Ok(RwLockReadGuard { l: self }) }
+    pub fn try_write(&self) -> Result<RwLockWriteGuard<'_, T>, Poison> { self.q.on_acquire(true); if self.st.get() != 0 { return Err(Poison); } self.st.set(-1); Ok(RwLockWriteGuard { l: self }) }
+    pub fn get_mut(&mut self) -> Result<&mut T, Poison> { Ok(unsafe { &mut *self.v.get() }) }
+    pub fn into_inner(self) -> Result<T, Poison> { Ok(self.v.into_inner()) }
+    pub fn is_poisoned(&self) -> bool { false }
     pub fn write(&self) -> Result<RwLockWriteGuard<'_, T>, Poison> {
         self.q.on_acquire(true);
         while self.st.get() != 0 { vsym::block_on_lock(); }
@@ -49,6 +55,10 @@ pub struct MutexGuard<'a, T> { l: &'a Mutex<T> }
 impl<T> Mutex<T> {
     pub fn new(t: T) -> Self { Mutex { v: UnsafeCell::new(t), held: Cell::new(false), q: Quiet::new() } }
     pub fn set_quiet(&self, mode: u8) { self.q.set(mode); }
+    pub fn try_lock(&self) -> Result<MutexGuard<'_, T>, Poison> { self.q.on_acquire(true); if self.held.get() { return Err(Poison); } self.held.set(true); Ok(MutexGuard { l: self }) }
+    pub fn get_mut(&mut self) -> Result<&mut T, Poison> { Ok(unsafe { &mut *self.v.get() }) }
+    pub fn into_inner(self) -> Result<T, Poison> { Ok(self.v.into_inner()) }
+    pub fn is_poisoned(&self) -> bool { false }
     pub fn lock(&self) -> Result<MutexGuard<'_, T>, Poison> {
         self.q.on_acquire(true);
         while self.held.get() { vsym::block_on_lock(); }
